@@ -6,7 +6,8 @@ import json, os, shutil, subprocess, sys, tempfile
 
 SEEDS = "/tmp/seeds"
 HERE = os.path.dirname(os.path.dirname(os.path.abspath(__file__)))
-EXTRA = {"C05_2": ["C15"], "C03_1": ["C11"], "C09_2": ["C11"], "C07_1": ["C06"], "C07_2": ["C06"], "C03_2": ["C14"], "C14_2": ["C03"]}
+EXTRA = {"C05_2": ["C15"], "C03_1": ["C11"], "C09_2": ["C11"], "C07_1": ["C06"], "C07_2": ["C06"], "C03_2": ["C14"], "C14_2": ["C03"],
+         "C11_5": ["C03", "C19"], "C19_5": ["C15"], "C13_6": ["C16"], "C15_6": ["C05"]}
 
 
 def run_check(pid, repo):
